@@ -496,6 +496,12 @@ def stream_collections(ctx, drv, n):
          [["w.py"], ["w.py", "xml.dom.py"], ["w.py", "a.b/c.py"]]),
         ({"p.q.py": "", "pkg/m.n.py": "k = 1\n", "t.py": "import p.q\nimport pkg.m.n\nfrom p import q\nt = 1\n", "pkg/s.py": "import t\n"},
          [["t.py"], ["t.py", "pkg/s.py"], ["t.py", "p.q.py"]]),
+        # a collected file whose path is only a CASE VARIANT of an imported module: `import queue` does not name Queue.py
+        # (seed C03-m: paths compared case-folded)
+        ({"Queue.py": "q = []\n", "client.py": "import queue\nimport json\nx = queue.Queue()\n", "JSON.py": "j = 1\n"},
+         [["client.py"], ["client.py", "Queue.py"], ["client.py", "JSON.py"]]),
+        ({"pkg/Helper.py": "h = 1\n", "main.py": "from pkg.helper import h\nimport pkg.helper\nprint(h)\n"},
+         [["main.py"]]),
     ]
     base_code = "acc = 0\nfor i in range(5):\n    acc = acc + i\nprint(acc)\n"
     hinted_code = ("acc = 0 # paroxython: extra_label\nfor i in range(5):\n    acc = acc + i # paroxython: -addition_operator\n"
@@ -548,8 +554,12 @@ def stream_collections(ctx, drv, n):
                 ctx.dist("subcollection.hinted_copy")
         if fixed_subsets is None and ctx.rng.random() < 0.4:
             # a collected file (or directory) whose name looks like a dotted module, imported by name elsewhere
-            mod = ctx.rng.choice(["os.path", "xml.dom", "collections.abc", "a.b", "zz.yy.xx"])
-            nm = ctx.rng.choice([f"{mod}.py", mod.replace(".", "/", 1) + ".py" if mod.count(".") > 1 else f"{mod}.py",
+            mod = ctx.rng.choice(["os.path", "xml.dom", "collections.abc", "a.b", "zz.yy.xx", "queue", "json", "mymod"])
+            if "." not in mod:  # a case variant of the module's file name: not the module (which is not collected)
+                nm = ctx.rng.choice([mod.capitalize(), mod.upper()]) + ".py"
+                ctx.dist("subcollection.case_variant_file")
+            else:
+              nm = ctx.rng.choice([f"{mod}.py", mod.replace(".", "/", 1) + ".py" if mod.count(".") > 1 else f"{mod}.py",
                                  mod.rsplit(".", 1)[0] + "/" + mod.rsplit(".", 1)[1] + ".py" if mod.count(".") > 1 else f"{mod}.py"])
             files[nm] = ctx.rng.choice(["x = 1\n", "", "def f():\n    return 0\n"])
             importer = ctx.rng.choice([p for p in files if p != nm])
